@@ -94,6 +94,9 @@ class Check:
     def shrink(self, case) -> t.Iterable:
         return ()
 
+    def warmup(self, cases) -> None:
+        return None
+
     def exhaustive(self, tier: str) -> bool:
         return False
 
@@ -141,19 +144,25 @@ _CHECK: t.Optional[Check] = None
 _CASES: t.Sequence = ()
 
 
-def _run_slice(args):
-    widx, nworkers, sample_mod = args
-    check = _CHECK
-    assert check is not None
-    faulthandler.enable()
-    warnings.simplefilter("ignore")
-    try:  # a runaway allocation in the code under test must become a MemoryError in this worker, not an OOM kill of the box
+def _limit_memory() -> None:
+    """A runaway allocation in the code under test must become a MemoryError in this process, not an OOM kill of the box
+    (the same limit applies to workers and to replays, so that both see the same outcome)."""
+    try:
         import resource
 
         lim = 3 << 30
         resource.setrlimit(resource.RLIMIT_AS, (lim, lim))
     except Exception:  # noqa: BLE001
         pass
+
+
+def _run_slice(args):
+    widx, nworkers, sample_mod = args
+    check = _CHECK
+    assert check is not None
+    faulthandler.enable()
+    warnings.simplefilter("ignore")
+    _limit_memory()
     agg = {"n": 0, "fired": collections.Counter(), "probes": collections.Counter(), "keys": set(), "sched": set(), "viols": [],
            "digests": {}, "vtime_ns": 0, "samples": [], "viol_count": 0, "errors": []}
     persig: t.Dict[str, int] = collections.Counter()
@@ -206,8 +215,10 @@ def _run_slice(args):
 
 # -------------------------------------------------------------------- main ----
 def reexec_if_needed() -> None:
-    if os.environ.get("PYTHONHASHSEED") != "0":
-        env = dict(os.environ, PYTHONHASHSEED="0")
+    # MALLOC_ARENA_MAX=1: glibc otherwise reserves 64 MiB of address space per thread arena at unpredictable moments,
+    # which the address-space watch (VmWatch) would see as growth
+    if os.environ.get("PYTHONHASHSEED") != "0" or os.environ.get("MALLOC_ARENA_MAX") != "1":
+        env = dict(os.environ, PYTHONHASHSEED="0", MALLOC_ARENA_MAX="1")
         os.execve(sys.executable, [sys.executable] + sys.argv, env)
 
 
@@ -266,6 +277,8 @@ def _run(check: Check, args, t0: float) -> int:
     if n == 0:
         raise HarnessError("no cases generated")
     _CHECK, _CASES = check, cases
+    if not args.replay:
+        check.warmup(cases)  # (lazy imports etc. happen once in the parent, before the workers are forked)
     if args.digest_only:
         h = hashlib.sha256()
         for c in cases:
@@ -459,6 +472,7 @@ def _verify_replay(check: Check, path: str) -> bool:
 def _replay(check: Check, path: str) -> int:
     with open(path) as f:
         doc = json.load(f)
+    _limit_memory()
     case = doc["case"]
     res = check.run_case(case)
     v = res.get("viol")
@@ -508,6 +522,40 @@ class KdfBudget:
         for mod, real in self._saved:
             setattr(mod, "kdf", real)
         self._saved.clear()
+        return False
+
+
+def _vm_kb() -> t.Tuple[int, int]:
+    peak = size = 0
+    with open("/proc/self/status") as f:
+        for line in f:
+            if line.startswith("VmPeak:"):
+                peak = int(line.split()[1])
+            elif line.startswith("VmSize:"):
+                size = int(line.split()[1])
+                break
+    return peak, size
+
+
+class VmWatch:
+    """Address-space growth of this process during a call, from the kernel's high-water mark (VmPeak).
+
+    ``growth`` = bytes by which the call pushed the process's address space above where it stood at entry (0 when the
+    high-water mark did not move); ``blind`` = head-room below an older high-water mark in which growth cannot be seen.
+    (tracemalloc is not used: under CPython 3.12.1 its frame lookup segfaults now and then - PyCode_Addr2Line - which
+    would turn a run on a correct tree into a harness error.)
+    """
+
+    def __enter__(self):
+        self.enabled = os.environ.get("MALLOC_ARENA_MAX") == "1"
+        self.peak0, self.size0 = _vm_kb()
+        self.growth = 0
+        self.blind = (self.peak0 - self.size0) * 1024
+        return self
+
+    def __exit__(self, *a):
+        peak1, _size1 = _vm_kb()
+        self.growth = (peak1 - self.size0) * 1024 if (peak1 > self.peak0 and self.enabled) else 0
         return False
 
 
